@@ -23,7 +23,9 @@ def run_model(ref, lines, timeout=600):
             soft, hard = resource.getrlimit(resource.RLIMIT_STACK)
             resource.setrlimit(resource.RLIMIT_STACK, (hard, hard))
     try:
-        r = subprocess.run([ref], input=('\n'.join(lines) + '\n').encode(), capture_output=True, timeout=timeout, preexec_fn=big_stack)
+        # a large minor heap: every minor collection scans the (deep) stack
+        r = subprocess.run([ref], input=('\n'.join(lines) + '\n').encode(), capture_output=True, timeout=timeout, preexec_fn=big_stack,
+                           env=dict(os.environ, OCAMLRUNPARAM='s=64M'))
     except subprocess.TimeoutExpired:
         raise RuntimeError('%s timed out' % ref)
     if r.returncode != 0:
